@@ -385,6 +385,77 @@ C11Ledger(rled, post) ==
     /\ Sub("reward_lower", ld.lo \preceq (((ld.cr ++ PendingR(post, x, i)) ++ LedSlack(ld)) \otimes Q128))
 
 -----------------------------------------------------------------------------
+(* C16: transfer-fee tokens at instruction level.  The real Token-2022 processor executes the
+   transfers and withholds the fee, so balance deltas are ground truth: the user's account loses
+   `paid', the vault's amount grows by paid - fee; the vault loses `sent', the user gains sent - fee. *)
+TfCfg(s, m, epoch) ==
+  LET t == s.mint[m].tf IN
+  IF ~t.has THEN [bps |-> 0, max |-> 0]
+  ELSE IF t.newer.epoch \preceq epoch THEN [bps |-> t.newer.bps, max |-> t.newer.max]
+  ELSE [bps |-> t.older.bps, max |-> t.older.max]
+
+C16Swap(pre, e, post) ==
+  LET sw    == e.swaps[1]
+      p     == APool(e)
+      a     == e.args
+      cIn   == TfCfg(pre, IF a.aToB THEN pre.pool[p].mintA ELSE pre.pool[p].mintB, e.epoch)
+      cOut  == TfCfg(pre, IF a.aToB THEN pre.pool[p].mintB ELSE pre.pool[p].mintA, e.epoch)
+      paid  == 0 -- Delta(pre, post, InAcct(e))
+      vIn   == Delta(pre, post, InVault(e))
+      sent  == 0 -- Delta(pre, post, OutVault(e))
+      got   == Delta(pre, post, OutAcct(e))
+      need  == SumIn(sw)
+  IN /\ Sub("one_swap_record", Len(e.swaps) = 1 /\ sw.done)
+     /\ Sub("vault_receives_curve_amount", need \preceq vIn)
+     /\ Sub("vault_pays_curve_amount", sent \doteq SumOut(sw))
+     /\ Sub("fee_withheld_in", vIn \doteq TfExcluded(cIn, paid))
+     /\ Sub("fee_withheld_out", got \doteq TfExcluded(cOut, sent))
+     /\ IF a.exactIn
+        THEN /\ Sub("pays_at_most_specified", paid \preceq a.amount)
+             /\ Sub("request_is_smallest", IF need \doteq TfExcluded(cIn, a.amount) THEN paid \doteq a.amount ELSE TfMinimalFor(cIn, paid, need))
+             /\ Sub("threshold_on_received", a.threshold \preceq got)
+        ELSE /\ Sub("request_is_smallest", TfMinimalFor(cIn, paid, need))
+             /\ Sub("receives_at_most_requested", got \preceq a.amount)
+             /\ Sub("receives_exactly_requested", (a.limit \doteq 0) => got \doteq a.amount)
+             /\ Sub("sent_is_smallest", (got \doteq a.amount) => TfMinimalFor(cOut, sent, a.amount))
+             /\ Sub("threshold_on_paid", paid \preceq a.threshold)
+     /\ Sub("has_traded", HasTraded(e))
+     /\ LET t == Traded(e) IN
+          /\ Sub("event_amounts", t.inputAmount \doteq paid /\ t.outputAmount \doteq sent)
+          /\ Sub("event_fees", t.inputTransferFee \doteq (paid -- vIn) /\ t.outputTransferFee \doteq (sent -- got))
+
+LiqEvent(e, name) == LET S == {i \in DOMAIN e.events : e.events[i].ev = name} IN e.events[CHOOSE i \in S : TRUE]
+HasLiqEvent(e, name) == \E i \in DOMAIN e.events : e.events[i].ev = name
+
+C16Modify(pre, e, post, increase) ==
+  LET x    == pre.pos[APos(e)]
+      p    == x.pool
+      pool == pre.pool[p]
+      td   == TokenDeltas(pool.tick, pool.sqrtPrice, x.lo, x.up, P(post, x.lo), P(post, x.up), e.args.liq, increase)
+      cA   == TfCfg(pre, pool.mintA, e.epoch)
+      cB   == TfCfg(pre, pool.mintB, e.epoch)
+      ua   == e.slots.token_owner_account_a.id
+      ub   == e.slots.token_owner_account_b.id
+      va   == e.slots.token_vault_a.id
+      vb   == e.slots.token_vault_b.id
+  IN IF increase
+     THEN LET paidA == 0 -- Delta(pre, post, ua) paidB == 0 -- Delta(pre, post, ub) IN
+          /\ Sub("vault_receives_exact", Delta(pre, post, va) \doteq td[1] /\ Delta(pre, post, vb) \doteq td[2])
+          /\ Sub("request_is_smallest", TfInclOK(cA, td[1], [amount |-> paidA, fee |-> TfFee(cA, paidA)])
+                                      /\ TfInclOK(cB, td[2], [amount |-> paidB, fee |-> TfFee(cB, paidB)]))
+          /\ Sub("max_on_paid", paidA \preceq e.args.maxA /\ paidB \preceq e.args.maxB)
+          /\ Sub("event", HasLiqEvent(e, "LiquidityIncreased") /\
+                 LET v == LiqEvent(e, "LiquidityIncreased") IN
+                   v.amountA \doteq paidA /\ v.amountB \doteq paidB /\ v.feeA \doteq TfFee(cA, paidA) /\ v.feeB \doteq TfFee(cB, paidB))
+     ELSE LET gotA == Delta(pre, post, ua) gotB == Delta(pre, post, ub) IN
+          /\ Sub("vault_pays_exact", (0 -- Delta(pre, post, va)) \doteq td[1] /\ (0 -- Delta(pre, post, vb)) \doteq td[2])
+          /\ Sub("user_receives_net", gotA \doteq TfExcluded(cA, td[1]) /\ gotB \doteq TfExcluded(cB, td[2]))
+          /\ Sub("min_on_received", e.args.minA \preceq gotA /\ e.args.minB \preceq gotB)
+          /\ Sub("event", HasLiqEvent(e, "LiquidityDecreased") /\
+                 LET v == LiqEvent(e, "LiquidityDecreased") IN
+                   v.amountA \doteq td[1] /\ v.amountB \doteq td[2] /\ v.feeA \doteq TfFee(cA, td[1]) /\ v.feeB \doteq TfFee(cB, td[2]))
+
+-----------------------------------------------------------------------------
 (* ghost update *)
 SegAfter(pre, e, post) ==
   \* cumulative trader gains per pool over a run of swaps
@@ -436,6 +507,9 @@ IxOK(pre, e, post) ==
   /\ IF e.name \in {"collect_protocol_fees", "collect_protocol_fees_v2"}
      THEN Chk("C06", "collect_protocol", NoTransferFee(pre, APool(e)) => C06CollectProtocol(pre, e, post))
      ELSE TRUE
+  /\ IF e.name = "swap_v2" THEN Chk("C16", "swap_v2", C16Swap(pre, e, post)) ELSE TRUE
+  /\ IF e.name = "increase_liquidity_v2" THEN Chk("C16", "increase_v2", C16Modify(pre, e, post, TRUE)) ELSE TRUE
+  /\ IF e.name = "decrease_liquidity_v2" THEN Chk("C16", "decrease_v2", C16Modify(pre, e, post, FALSE)) ELSE TRUE
   /\ IF e.name \in {"increase_liquidity", "increase_liquidity_v2"}
      THEN Chk("C08", "increase_amounts", NoTransferFee(pre, pre.pos[APos(e)].pool) => C08Modify(pre, e, post, TRUE))
      ELSE TRUE
